@@ -143,6 +143,9 @@ func runC01(c C01Case) (c01Stats, error) {
 				continue
 			}
 			h := held[op.N%len(held)]
+			if op.N == 1000003 {
+				h = held[len(held)-1]
+			}
 			ctxI := op.Ctx % len(c.Ctxs)
 			want, err := pristine(OneShot{Eng: h.spec, Call: "loadRender", Name: h.name, Ctx: c.Ctxs[ctxI]})
 			if err != nil {
@@ -283,6 +286,13 @@ func genC01(t *rapid.T) C01Case {
 		default:
 			op.Op = "gc"
 			op.N = rapid.IntRange(1, 2).Draw(t, "gcn")
+		}
+		if op.Op == "hold" && rapid.IntRange(0, 1).Draw(t, "dance") == 0 {
+			// a handle taken while cached is rendered while caching is off, then the cached
+			// template is rendered again with caching back on
+			c.Ops = append(c.Ops, op, C01Op{Op: "cache", Eng: eng, On: false}, C01Op{Op: "renderHeld", Eng: eng, N: 1000003, Ctx: eng},
+				C01Op{Op: "cache", Eng: eng, On: true}, C01Op{Op: "render", Eng: eng, Name: op.Name, Ctx: eng})
+			continue
 		}
 		c.Ops = append(c.Ops, op)
 		if op.Op == "register" {
